@@ -189,6 +189,45 @@ def run_point(ctx, kind, n, acts, fmt, kw, batch, order, model_reqs):
     if batch is None:
         en = Enc15(lrn.offered); model_reqs.append((dict(case), en, got[0], [[en.enc(a) for a in lrn.offered], en.enc(lrn.last_pred), seed]))
 
+def inexact_pmf_law(ctx):
+    """a bare PMF computed in single precision or rounded to four decimals sums to one only approximately; it is still a PMF: the action is drawn from it with the
+    SafeLearner's seed and exactly its entry is reported (single calls, row- and column-major batches)"""
+    import struct
+    import coba.random as cr
+    from coba.safety import SafeLearner
+    from coba.environments.filters import Batch
+    f32 = lambda x: struct.unpack("f", struct.pack("f", x))[0]
+    class P:
+        def __init__(self, pmfs, order): self.pmfs, self.order, self.t = pmfs, order, 0
+        def predict(self, context, actions):
+            from coba.primitives import is_batch
+            if is_batch(actions):
+                rows = [list(self.pmfs[(self.t + b) % len(self.pmfs)]) for b in range(len(actions))]; self.t += len(actions)
+                return rows if self.order == "row" else [[r[j] for r in rows] for j in range(len(rows[0]))]
+            self.t += 1; return list(self.pmfs[(self.t - 1) % len(self.pmfs)])
+        def learn(self, *a, **k): pass
+    for acts in (["a", "b", "c"], [2, 3, 4, 5, 6, 7, 8], [(1, 0, 0), (0, 1, 0), (0, 0, 1)], ["a", "b"]):
+        n = len(acts)
+        for name, pmfs in (("rounded", [[round(1 / n, 4)] * n, [round(0.5 + 1 / 3, 4) - 0.3333] + [round(0.5 / (n - 1), 4)] * (n - 1)]),
+                           ("float32", [[f32(1 / n)] * n, [f32(x / sum(range(1, n + 1))) for x in range(1, n + 1)]])):
+            if any(abs(sum(p) - 1) > 5e-4 for p in pmfs): continue
+            for batch, order in ((None, None), (2, "row"), (2, "col"), (3, "row"), (3, "col")):
+                if batch == n: continue      # the square case needs hints (outside this law)
+                case = dict(what="a PMF that sums to one approximately", kind=name, actions=repr(acts), pmfs=pmfs, sums=[sum(p) for p in pmfs], batch=batch, order=order)
+                ctx.count("inexact-pmf:%s:%s" % (name, "batched" if batch else "single"), repr(case), True)
+                seed = 5; safe = SafeLearner(P(pmfs, order), seed); rng = cr.CobaRandom(seed); got, exp = [], []
+                try:
+                    for step in range(3):
+                        if batch is None:
+                            a, p, _ = safe.predict(None, acts); got.append((a, p)); exp.append(rng.choicew(acts, pmfs[step % len(pmfs)]))
+                        else:
+                            a, p, _ = safe.predict(Batch.List([None] * batch), Batch.List([list(acts) for _ in range(batch)]))
+                            got += list(zip(a, p)); exp += [rng.choicew(acts, pmfs[(step * batch + b) % len(pmfs)]) for b in range(batch)]
+                except Exception as e:
+                    ctx.fail(["predict", "raises", errname(e), "inexact-pmf", name], "predict raised %s: %s on %s" % (errname(e), str(e)[:90], case), case); continue
+                if [(a, p) for a, p in got] != [(a, p) for a, p in exp]:
+                    ctx.fail(["predict", "wrong", "inexact-pmf", name], "predict -> %r, drawing from the PMFs with seed %d gives %r on %s" % (got[:4], seed, exp[:4], case), case)
+
 def inplace_law(ctx):
     """the caller keeps ONE list of actions and edits it in place between calls: the learner is shown, and answers from, the current set"""
     from coba.safety import SafeLearner
@@ -278,6 +317,7 @@ def run(ctx):
     from coba.context import CobaContext, NullLogger
     CobaContext.logger = NullLogger()
     inplace_law(ctx)
+    inexact_pmf_law(ctx)
     mixed_batch_law(ctx)
     mapping_kwargs_law(ctx)
     sets = action_sets()
@@ -296,6 +336,7 @@ def run(ctx):
     model_reqs = []
     for p in pts: run_point(ctx, *p, model_reqs)
     check_evaluator_seed(ctx)
+    check_evaluator_stated(ctx)
     mouts = ctx.get_model().batch([(15, r[3]) for r in model_reqs])
     for (case, en, got, _), mo in zip(model_reqs, mouts):
         if mo[0] == 1: m = ("EXC", mo[1])
@@ -331,6 +372,43 @@ def check_evaluator_seed(ctx):
     finally:
         if old is None: CobaContext.store.pop("experiment_seed", None)
         else: CobaContext.store["experiment_seed"] = old
+
+def check_evaluator_stated(ctx):
+    """the evaluator receives the probability the learner stated: through SequentialCB every row records, and learn is handed, exactly the stated action and
+    probability - also a stated probability of exactly 0 or 0.0 - for the (a,p), (a,p,kwargs) and {'action_prob':...} forms, un-batched and batched"""
+    from coba.evaluators import SequentialCB
+    probs = [0.5, 0, 0.25, 0.0, 1.0, 0.125]
+    class Stated:
+        def __init__(self, form): self.form, self.t, self.learned = form, 0, []
+        def predict(self, context, actions):
+            from coba.primitives import is_batch
+            if is_batch(actions): return [self.row(c, A) for c, A in zip(context, actions)]
+            return self.row(context, actions)
+        def row(self, t, actions):      # the answer depends on the interaction only (SafeLearner may probe a batched learner twice)
+            p = probs[t % len(probs)]; a = actions[t % len(actions)]
+            return (a, p) if self.form == "AP" else (a, p, {"k": t}) if self.form == "AP+kw" else {"action_prob": (a, p)}
+        def learn(self, context, action, reward, probability, **kw):
+            if isinstance(action, (list, tuple)): self.learned += list(zip(action, probability))      # (the actions of this law are strings)
+            else: self.learned.append((action, probability))
+    class Env:
+        params = {}
+        def __init__(self, batch): self.batch = batch
+        def read(self):
+            from coba.environments.filters import Batch
+            rows = [{"context": t, "actions": ["a", "b", "c"], "rewards": [1, 2, 3]} for t in range(12)]
+            return list(Batch(self.batch).filter(rows)) if self.batch else rows
+    for form in ("AP", "AP+kw", "dAP"):
+        for batch in (None, 2):
+            if batch and form == "AP+kw": continue
+            case = dict(what="stated probabilities through SequentialCB", form=form, batch=batch, probabilities=probs); ctx.count("evaluator-stated:%s" % form, repr(case), True)
+            lrn = Stated(form)
+            try: rows = list(SequentialCB(["action", "reward", "probability"]).evaluate(Env(batch), lrn))
+            except Exception as e:
+                ctx.fail(["evaluator-stated", "raises", errname(e)], "SequentialCB raised %s: %s on %s" % (errname(e), str(e)[:100], case), case); continue
+            exp = [(["a", "b", "c"][t % 3], probs[t % len(probs)]) for t in range(12)]
+            got = [(r.get("action"), r.get("probability", "<no probability recorded>")) for r in rows]
+            if got != exp: ctx.fail(["evaluator-stated", "row-differs", form], "the rows record %r, the learner stated %r on %s" % (got[:6], exp[:6], case), case); continue
+            if lrn.learned != exp: ctx.fail(["evaluator-stated", "learn-differs", form], "learn received %r, the learner stated %r on %s" % (lrn.learned[:6], exp[:6], case), case)
 
 def replay(r):
     print(json.dumps(r, indent=1, default=str)[:3000]); return 0
